@@ -66,14 +66,14 @@ func (g *Gen) pricing(st *State) MPricing {
 	if st.Params.MinDeposit > 1000 {
 		pr.Price = g.in(0, 1, 2, 5, 30, 100, 1000)
 	} else {
-		pr.Price = g.in(0, 1, 1, 2, 3, 3, 5, 8, 12)
+		pr.Price = g.in(0, 1, 1, 2, 3, 3, 5, 7, 8, 9, 12, 25)
 	}
-	if g.chance(0.4) {
-		n := 1 + g.R.Intn(2)
-		t := st.Now - 2 + int64(g.R.Intn(4))
+	if g.chance(0.5) {
+		n := 1 + g.R.Intn(3)
+		t := st.Now - 6 + int64(g.R.Intn(8))
 		for i := 0; i < n; i++ {
 			e := t + 1 + int64(g.R.Intn(5))
-			pr.PT = append(pr.PT, PromoT{S: t, E: e, D: g.in(10, 25, 50, 75, 99, 1)})
+			pr.PT = append(pr.PT, PromoT{S: t, E: e, D: g.in(10, 25, 50, 50, 75, 75, 99, 1)})
 			t = e + int64(g.R.Intn(3))
 		}
 		if g.chance(0.05) && len(pr.PT) > 1 { // out of order: rejected by the pricing rules
@@ -84,7 +84,7 @@ func (g *Gen) pricing(st *State) MPricing {
 		n := 1 + g.R.Intn(3)
 		v := int64(1 + g.R.Intn(2))
 		for i := 0; i < n; i++ {
-			pr.PV = append(pr.PV, PromoV{V: v, D: g.in(10, 30, 50, 90, 5)})
+			pr.PV = append(pr.PV, PromoV{V: v, D: g.in(10, 30, 50, 50, 75, 90, 5)})
 			v += int64(g.R.Intn(3)) // equal volumes are accepted by the rules
 		}
 		if g.chance(0.05) && len(pr.PV) > 1 && pr.PV[0].V != pr.PV[1].V {
@@ -184,6 +184,18 @@ func (g *Gen) call(st *State) Ev {
 
 func (g *Gen) respond(st *State) Ev {
 	kind := g.pick([]string{"valid", "valid", "valid", "none", "bad"})
+	if len(st.ActId) > 0 && g.chance(0.85) {
+		a := st.ActId[g.R.Intn(len(st.ActId))]
+		for _, q := range st.Req {
+			if q.Rid == a {
+				signer := q.Prov
+				if g.chance(0.06) {
+					signer = g.pick(g.All)
+				}
+				return Ev{Name: "Respond", Signer: signer, Rid: q.Rid, Kind: kind}
+			}
+		}
+	}
 	if len(st.Req) > 0 && g.chance(0.93) {
 		q := st.Req[g.R.Intn(len(st.Req))]
 		signer := q.Prov
